@@ -350,8 +350,17 @@ pub fn explore<M: Model>(m: &M, rep: &Report, lim: &Limits, label: &str) -> Outc
             ));
             break;
         }
+        // phases 1 and 2 run chunk by chunk, so that the successors that have not been deduplicated yet
+        // never exceed a bounded share of the frontier (memory), in frontier order (deterministic)
+        let mut fresh: Vec<(u32, M::S)> = vec![];
+        let mut memory_capped = false;
+        for chunk in frontier.chunks(2048) {
+        if rss_gib() > max_rss_gib() {
+            memory_capped = true;
+            break;
+        }
         // phase 1: successors (parallel)
-        let items: Vec<Vec<Item<M::S>>> = frontier
+        let items: Vec<Vec<Item<M::S>>> = chunk
             .par_iter()
             .map(|(id, s)| {
                 let mut out = vec![];
@@ -403,9 +412,7 @@ pub fn explore<M: Model>(m: &M, rep: &Report, lim: &Limits, label: &str) -> Outc
                 out
             })
             .collect();
-        drop(frontier);
         // phase 2: dedupe (sequential, deterministic order)
-        let mut fresh: Vec<(u32, M::S)> = vec![];
         for it in items.into_iter().flatten() {
             match it {
                 Item::Viol(parent, action, v) => {
@@ -440,6 +447,12 @@ pub fn explore<M: Model>(m: &M, rep: &Report, lim: &Limits, label: &str) -> Outc
                     fresh.push((id, s.state));
                 }
             }
+        }
+        }
+        drop(frontier);
+        if memory_capped {
+            exhausted = false;
+            rep.note(format!("{}: memory cap hit inside depth {} (resident set {:.1} GiB > {:.0} GiB); the level was not completed", label, depth + 1, rss_gib(), max_rss_gib()));
         }
         depth += 1;
         if !fresh.is_empty() {
